@@ -15,6 +15,7 @@ import (
 	"strings"
 
 	"golang.org/x/tools/go/packages"
+	"golang.org/x/tools/go/ssa"
 )
 
 // ---------------------------------------------------------------- helpers
@@ -2233,142 +2234,127 @@ func t2c02AlgoNames(c *Ctx) {
 	}
 	c.Floor(rule, n, 6, "algorithm names")
 
-	// the hook
-	hook, _ := p.Types.Scope().Lookup("StringToX509PublicKeyAlgo").(*types.Func)
-	var hfd *ast.FuncDecl
-	if hook != nil {
-		hfd = t2declOf(p, hook)
-	}
-	if hfd == nil || hfd.Body == nil {
-		c.Unresolved(rule, "function config.StringToX509PublicKeyAlgo")
+	// the hook (on the SSA form, so that local names, helper extraction and merged guards do not matter)
+	hookFn := w.Func("config", "StringToX509PublicKeyAlgo")
+	if hookFn == nil || hookFn.Blocks == nil || len(hookFn.AnonFuncs) != 1 {
+		c.Unresolved(rule, "function config.StringToX509PublicKeyAlgo returning one closure")
 		return
 	}
-	var lit *ast.FuncLit
-	for _, r := range t2returnStmts(hfd.Body) {
-		if len(r.Results) == 1 {
-			if fl, ok := t2unparen(r.Results[0]).(*ast.FuncLit); ok {
-				lit = fl
-			}
+	lit := hookFn.AnonFuncs[0]
+	c.Saw(lit)
+	lf := w.Facts(lit)
+	var data *ssa.Parameter
+	for _, prm := range lit.Params {
+		if _, isI := prm.Type().Underlying().(*types.Interface); isI {
+			data = prm
 		}
 	}
-	if lit == nil {
-		c.Unresolved(rule, "closure returned by StringToX509PublicKeyAlgo")
-		return
-	}
-	// data parameter: the interface-typed parameter
-	var data types.Object
-	for _, f := range lit.Type.Params.List {
-		for _, nm := range f.Names {
-			o := p.TypesInfo.Defs[nm]
-			if o != nil {
-				if _, isI := o.Type().Underlying().(*types.Interface); isI {
-					data = o
-				}
-			}
-		}
-	}
-	isDataString := func(e ast.Expr) bool {
-		ta, ok := t2unparen(e).(*ast.TypeAssertExpr)
-		if !ok || ta.Type == nil || data == nil || t2obj(p, ta.X) != data {
+	// isDataString: v denotes data.(string)
+	isDataString := func(v ssa.Value) bool {
+		ta, ok := w.canon(lit, v).(*ssa.TypeAssert)
+		if !ok || data == nil || w.canon(lit, ta.X) != ssa.Value(data) {
 			return false
 		}
-		b, ok := p.TypesInfo.TypeOf(ta.Type).(*types.Basic)
+		b, ok := ta.AssertedType.(*types.Basic)
 		return ok && b.Kind() == types.String
 	}
-	var lookup *ast.IndexExpr
-	var lookupAssign *ast.AssignStmt
-	var parse *ast.CallExpr
-	ast.Inspect(lit.Body, func(n ast.Node) bool {
-		switch x := n.(type) {
-		case *ast.AssignStmt:
-			if len(x.Rhs) == 1 {
-				if ix, ok := t2unparen(x.Rhs[0]).(*ast.IndexExpr); ok && t2obj(p, ix.X) == types.Object(tbl) {
-					lookupAssign = x
+	var lookup *ssa.Lookup
+	var parse *ssa.Call
+	for _, fn := range w.Tree(lit) {
+		for _, b := range fn.Blocks {
+			for _, ins := range b.Instrs {
+				switch x := ins.(type) {
+				case *ssa.Lookup:
+					if ld, ok := x.X.(*ssa.UnOp); ok && lookup == nil {
+						if g, ok := ld.X.(*ssa.Global); ok && g.Object() == types.Object(tbl) {
+							lookup = x
+						}
+					}
+				case *ssa.Call:
+					if calleeName(x) == "strconv.ParseUint" && parse == nil {
+						parse = x
+					}
 				}
 			}
-		case *ast.IndexExpr:
-			if t2obj(p, x.X) == types.Object(tbl) && lookup == nil {
-				lookup = x
-			}
-		case *ast.CallExpr:
-			if t2isFunc(t2obj(p, x.Fun), "strconv", "ParseUint") && parse == nil {
-				parse = x
-			}
 		}
-		return true
-	})
+	}
 	lkey := "hook|looks up " + tbl.Name() + "[strings.ToLower(data.(string))]"
 	if lookup == nil {
-		c.Bad(rule, lkey, w.Pos(lit.Pos()), "the closure never reads "+tbl.Name())
+		c.Bad(rule, lkey, w.FnPos(lit), "the closure never reads "+tbl.Name())
 	} else {
-		call, callee := t2callee(p, lookup.Index)
-		okLow := call != nil && t2isFunc(callee, "strings", "ToLower") && len(call.Args) == 1 && isDataString(call.Args[0])
+		okLow := false
+		if call, ok := w.canon(lit, lookup.Index).(*ssa.Call); ok && calleeName(call) == "strings.ToLower" && len(call.Call.Args) == 1 {
+			okLow = isDataString(call.Call.Args[0])
+		}
 		c.Check(okLow, rule, lkey, w.Pos(lookup.Pos()), "index is strings.ToLower(data.(string))", "the table is not indexed with strings.ToLower(<data>.(string)) (case-insensitive lookup lost)")
 	}
 	// found => that value is returned
-	if lookupAssign != nil && len(lookupAssign.Lhs) == 2 {
-		val, okv := t2obj(p, lookupAssign.Lhs[0]), t2obj(p, lookupAssign.Lhs[1])
-		good := false
-		ast.Inspect(lit.Body, func(n ast.Node) bool {
-			is, ok := n.(*ast.IfStmt)
-			if !ok || t2obj(p, is.Cond) != okv {
-				return true
+	if lookup != nil && lookup.CommaOk {
+		val, okv := extractOfV(lookup, 0), extractOfV(lookup, 1)
+		good, n := okv != nil && val != nil, 0
+		for _, r := range liveReturns(lit) {
+			if v, known := lf.KnownBool(r.Block(), okv); known && v {
+				n++
+				if len(r.Results) != 2 || w.canon(lit, r.Results[0]) != val || !isNilConst(w.canon(lit, r.Results[1])) {
+					good = false
+				}
 			}
-			r := t2firstReturn(is.Body.List)
-			if r != nil && len(r.Results) == 2 && t2obj(p, r.Results[0]) == val && t2isNilIdent(p, r.Results[1]) {
-				good = true
-			}
-			return true
-		})
-		c.Check(good, rule, "hook|a found name returns the table value", w.Pos(lookupAssign.Pos()), "if ok { return algo, nil }", "the comma-ok hit does not return the looked-up value with a nil error")
+		}
+		c.Check(good && n >= 1, rule, "hook|a found name returns the table value", w.Pos(lookup.Pos()), "if ok { return algo, nil }", "the comma-ok hit does not return the looked-up value with a nil error")
 	} else {
-		c.Und(rule, "hook|a found name returns the table value", w.Pos(lit.Pos()), "the table lookup is not of the comma-ok form")
+		c.Und(rule, "hook|a found name returns the table value", w.FnPos(lit), "the table lookup is not of the comma-ok form")
 	}
 	pkey := "hook|falls back to strconv.ParseUint(data.(string))"
 	if parse == nil {
-		c.Bad(rule, pkey, w.Pos(lit.Pos()), "the closure has no strconv.ParseUint fallback")
+		c.Bad(rule, pkey, w.FnPos(lit), "the closure has no strconv.ParseUint fallback")
 	} else {
-		after := lookup == nil || parse.Pos() > lookup.Pos()
-		c.Check(len(parse.Args) >= 1 && isDataString(parse.Args[0]) && after, rule, pkey, w.Pos(parse.Pos()), "numeric fallback parses the same string, after the name lookup", "strconv.ParseUint is not applied to <data>.(string) after the name lookup")
+		after := lookup == nil
+		if lookup != nil && lookup.CommaOk {
+			if v, known := lf.KnownBool(parse.Block(), extractOfV(lookup, 1)); known && !v {
+				after = true
+			}
+		}
+		c.Check(len(parse.Call.Args) >= 1 && isDataString(parse.Call.Args[0]) && after, rule, pkey, w.Pos(parse.Pos()), "numeric fallback parses the same string, after the name lookup", "strconv.ParseUint is not applied to <data>.(string) after the name lookup")
 	}
 
 	// ExtractHandlerConf installs the hook
-	efd := funcDecl(p, "GensignConfig.ExtractHandlerConf")
-	if efd == nil || efd.Body == nil {
+	ehc := w.Method("config", "GensignConfig", "ExtractHandlerConf")
+	if ehc == nil || ehc.Blocks == nil {
 		c.Unresolved(rule, "method (*GensignConfig).ExtractHandlerConf")
 		return
 	}
-	var dc *ast.CompositeLit
-	ast.Inspect(efd.Body, func(n ast.Node) bool {
-		if cl, ok := n.(*ast.CompositeLit); ok && dc == nil {
-			if nt, ok := types.Unalias(p.TypesInfo.TypeOf(cl)).(*types.Named); ok && nt.Obj().Name() == "DecoderConfig" && nt.Obj().Pkg() != nil && strings.HasSuffix(nt.Obj().Pkg().Path(), "mapstructure") {
-				dc = cl
-			}
-		}
-		return true
-	})
+	c.Saw(ehc)
+	w.Focus(ehc)
 	ikey := "ExtractHandlerConf|DecodeHook is StringToX509PublicKeyAlgo()"
-	if dc == nil {
+	dcs := w.allocsOfDeep(ehc, "mapstructure.DecoderConfig")
+	if len(dcs) == 0 {
 		c.Unresolved(rule, "mapstructure.DecoderConfig literal in ExtractHandlerConf")
 		return
 	}
-	fields, ok := t2fields(p, dc, nil)
-	if !ok || fields["DecodeHook"] == nil {
-		c.Bad(rule, ikey, w.Pos(dc.Pos()), "the DecoderConfig literal sets no DecodeHook: algorithm names are not decoded")
-		return
-	}
-	dh := fields["DecodeHook"]
-	isHookCall := func(e ast.Expr) bool {
-		call, callee := t2callee(p, e)
-		return call != nil && callee == types.Object(hook)
-	}
-	good := isHookCall(dh)
-	if call, callee := t2callee(p, dh); !good && call != nil {
-		if f, ok := callee.(*types.Func); ok && f.Name() == "ComposeDecodeHookFunc" {
-			for _, a := range call.Args {
-				good = good || isHookCall(a)
-			}
+	for _, dc := range dcs {
+		hooks := w.FieldStoresDeep(ehc, dc)["DecodeHook"]
+		if len(hooks) == 0 {
+			c.Bad(rule, ikey, w.Pos(dc.Pos()), "the DecoderConfig literal sets no DecodeHook: algorithm names are not decoded")
+			continue
 		}
+		isHookCall := func(v ssa.Value) bool {
+			call, ok := w.canon(ehc, v).(*ssa.Call)
+			return ok && call.Call.StaticCallee() == hookFn
+		}
+		good := true
+		for _, dh := range hooks {
+			g := isHookCall(dh)
+			if call, ok := w.canon(ehc, dh).(*ssa.Call); !g && ok && strings.HasSuffix(calleeName(call), "mapstructure.ComposeDecodeHookFunc") && len(call.Call.Args) == 1 {
+				if sl, ok := call.Call.Args[0].(*ssa.Slice); ok {
+					if arr, ok := sl.X.(*ssa.Alloc); ok {
+						for _, e := range storesInto(arr) {
+							g = g || isHookCall(e)
+						}
+					}
+				}
+			}
+			good = good && g
+		}
+		c.Check(good, rule, ikey, w.Pos(dc.Pos()), "DecodeHook: StringToX509PublicKeyAlgo()", "DecodeHook is not (a composition containing) a call of StringToX509PublicKeyAlgo")
 	}
-	c.Check(good, rule, ikey, w.Pos(dh.Pos()), "DecodeHook: StringToX509PublicKeyAlgo()", "DecodeHook is not (a composition containing) a call of StringToX509PublicKeyAlgo")
 }
